@@ -8,7 +8,7 @@ EXPLANATION = ('Decided: (1) the clause templates of every Tseitin gate encoder 
                'unsatisfiable input satisfiable); top-level emitters and dispatch as in C01; (2) every exit of the CDCL loop, the lookahead loop and the propagate wrapper '
                'that reports a model is preceded on every path by a complete theory check of the final assignment, checkTheory answers Decide for a complete call only '
                'after asking the theory, the `complete` flag is forwarded unchanged to every solver, the LA solver runs its integrality check on the complete path and no '
-               'check can answer UNKNOWN; (3) constants reach the difference-logic solvers exactly (no floating-point detour, rejecting range test: rule shared with C29). '
+               'check can answer UNKNOWN; the label-correcting searches of the difference-logic solver re-queue every vertex whose distance improves; (3) constants reach the difference-logic solvers exactly (no floating-point detour, rejecting range test: rule shared with C29). '
                'Completeness of the theory solvers themselves, branch-and-bound and array lemmas are not decided.')
 
 
@@ -20,6 +20,7 @@ def run(src, tier, seed):
     satrules.dispatch_rule(res, fx)
     satrules.toplevel_rule(res, fx)
     satrules.complete_check_rules(res, fx)
+    satrules.requeue_rule(res, fx)
     import C29
     sub = C29.run(src, tier, seed)
     r = res.rule('constants-exact', 'difference-logic constants are converted exactly and out-of-range values rejected (C29 rule constants-exact)', floor=1)
